@@ -169,6 +169,12 @@ static inline void spec_sha512_compress(uint64_t H[8], const unsigned char M[128
      (unsigned __int128)(pos) < SPEC_PAD_TOTAL(len, block, lenfield) - (lenfield) ? (unsigned char)0 : \
      SPEC_PAD_LENBYTE(len, SPEC_PAD_TOTAL(len, block, lenfield), (unsigned __int128)(pos)))
 
+/* byte at absolute position pos >= len of the padded message (the padding itself; needs no message bytes) */
+#define SPEC_PAD_TAIL_BYTE(len, block, lenfield, pos) \
+    ((unsigned __int128)(pos) == (unsigned __int128)(len) ? (unsigned char)0x80 : \
+     (unsigned __int128)(pos) < SPEC_PAD_TOTAL(len, block, lenfield) - (lenfield) ? (unsigned char)0 : \
+     SPEC_PAD_LENBYTE(len, SPEC_PAD_TOTAL(len, block, lenfield), (unsigned __int128)(pos)))
+
 /* ---- 6.1 / 6.2 / 6.4: whole-message digests (preprocessing + block loop + serialisation).
  * Only used natively and in the bounded padding lemma (message length is a loop bound here). ---- */
 static inline void spec_sha1(const unsigned char *msg, size_t len, unsigned char out[20]) {
